@@ -339,6 +339,8 @@ class Interp3(Interp2):
                     t = self.F("cappend", self.coerce_param(v.v, "ChildList").t, t)
                 else:
                     t = self.C("CCons", self.coerce_param(v, "Child").t, t)
+            if t is None:
+                return SAdt("NodeList", self.C("NNil"), fresh=True, pyclass="TagList")       # TagList(): empty
             if self.branch(self.F("bad", t)):
                 raise _Raise(SExc("TypeError", []), getattr(node, "lineno", None))
             return SAdt("NodeList", self.F("nodes", t), fresh=True)
